@@ -199,6 +199,17 @@ def run(ctx, rep):
                         lo, hi = ranges[ty]
                         ok = isinstance(v, (int, float)) and lo <= float(v) <= hi
                         detail = f'constant {v} ' + ('inside' if ok else 'OUTSIDE') + f' [{lo},{hi}]'
+                    if op is not None and op['k'] in ('move', 'copy') and not op['place']['p'] and ty in ranges:
+                        # the field is the local that holds `<f64 as Default>::default()` - the constant 0.0 (a derived Default)
+                        l_ = op['place']['l']
+                        defs = [t_ for blk_ in b.blocks for t_ in [blk_['term']] if t_['k'] == 'call' and t_.get('dest', {}).get('l') == l_
+                                and not t_['dest']['p']]
+                        other = [s_ for _, _, s_ in b.assigns(include_cleanup=True) if s_['place']['l'] == l_ and not s_['place']['p']]
+                        if len(defs) == 1 and not other and (defs[0]['callee'].get('resolved') or '') in (
+                                '<f64 as std::default::Default>::default', '<f64 as core::default::Default>::default'):
+                            lo, hi = ranges[ty]
+                            ok = lo <= 0.0 <= hi
+                            detail = 'f64::default() = 0.0 ' + ('inside' if ok else 'OUTSIDE') + f' [{lo},{hi}]'
                     rep.ob('R18.1', f'{last_seg(ty)}:{p}', ok, detail, where=s.get('span'))
                 if rv['k'] == 'cast' and rv['to'] in tyset and 'Transmute' in rv['kind']:
                     rep.ob('R18.1', f'{last_seg(rv["to"])}:transmute:{p}', False, 'transmute into a validated newtype',
